@@ -594,6 +594,7 @@ struct World {
     echoes: Counter,
     zr_srv: Counter,   // server: connection handlers still running
     zr_gate: Counter,  // client waits until the server is ready for the second connection
+    zr_acc: Counter,   // server: the spawned handler has called Incoming::accept
     zr_cli: Counter,   // client: helper tasks of the second connection still running
     saddr: SocketAddr,
 }
@@ -1253,7 +1254,9 @@ fn fresh_server_config(p: &P) -> ServerConfig {
 }
 
 async fn zr_conn_handler(cx: Ctx, inc: quinn::Incoming) {
-    match inc.accept() {
+    let acc = inc.accept();
+    cx.w.zr_acc.done();
+    match acc {
         Ok(connecting) => {
             cx.h_new(1, -1);
             PROBES.with(|q| q.borrow_mut().push((cx.ep, connecting.verif_probe().unwrap())));
@@ -1281,6 +1284,7 @@ async fn zr_conn_handler(cx: Ctx, inc: quinn::Incoming) {
 async fn zr_server(cx: Ctx, ep: Endpoint) {
     let p = &cx.w.p;
     cx.h_new(4, -1);
+    cx.w.zr_srv.n.set(0);
     for c in 0..2usize {
         let inc = op!(cx, O_EP_ACCEPT, -1, true, ep.accept());
         let Some(inc) = inc else {
@@ -1288,18 +1292,22 @@ async fn zr_server(cx: Ctx, ep: Endpoint) {
             break;
         };
         cx.res(0, 0, 0, true);
-        cx.w.zr_srv.n.set(1);
+        cx.w.zr_srv.n.set(cx.w.zr_srv.n.get() + 1);
+        cx.w.zr_acc.n.set(1);
         cx.spawn_ep(1 + 2 * c, move |c2| zr_conn_handler(c2, inc));
-        cx.w.zr_srv.wait(&cx, None).await;
+        // the connection's TLS session is created (with the CURRENT configuration) by Incoming::accept
+        cx.w.zr_acc.wait(&cx, None).await;
         if c == 0 {
             if p.get(k::ZRTT, 0) == 2 {
-                // "restart": same certificate, fresh ticket keys -> the client's ticket is useless
+                // "restart": same certificate, fresh ticket keys -> the ticket issued on the first
+                // connection (whose session keeps the old configuration) is useless afterwards
                 ep.set_server_config(Some(fresh_server_config(p)));
                 cx.sh.log(vec![44, cx.sh.t(), cx.tid(), 1]);
             }
             cx.w.zr_gate.done();
         }
     }
+    cx.w.zr_srv.wait(&cx, None).await;
     cx.sh.log(vec![39, cx.sh.t(), cx.tid(), 1, 5]);
     ep.close(VarInt::from_u32(0), b"");
     op!(cx, O_WAIT_IDLE, -1, true, ep.wait_idle());
@@ -1719,6 +1727,7 @@ fn run(sh: Arc<Sh>, p: P, saddr: SocketAddr) {
         echoes: Counter { n: Cell::new(0), wakers: RefCell::new(Vec::new()) },
         zr_srv: Counter { n: Cell::new(0), wakers: RefCell::new(Vec::new()) },
         zr_gate: Counter { n: Cell::new(1), wakers: RefCell::new(Vec::new()) },
+        zr_acc: Counter { n: Cell::new(0), wakers: RefCell::new(Vec::new()) },
         zr_cli: Counter { n: Cell::new(0), wakers: RefCell::new(Vec::new()) },
         saddr,
         p,
